@@ -4,15 +4,128 @@ namespace TaskModel.Finger
 
 variable (cfg : Cfg) (H : Bytes → Bytes) (pr : Proj)
 
+/-! ### the timestamp check -/
+
+theorem le_foldl_max (l : List Nat) (a x : Nat) (h : x ≤ a ∨ x ∈ l) : x ≤ l.foldl Nat.max a := by
+  induction l generalizing a with
+  | nil => simpa using h
+  | cons b l ih =>
+    simp only [List.foldl_cons]
+    apply ih
+    rcases h with h | h
+    · exact Or.inl (Nat.le_trans h (Nat.le_max_left a b))
+    · simp only [List.mem_cons] at h
+      rcases h with h | h
+      · subst h; exact Or.inl (Nat.le_max_right a x)
+      · exact Or.inr h
+
+theorem le_maxOf (l : List Nat) (x : Nat) (h : x ∈ l) : x ≤ maxOf l :=
+  le_foldl_max l 0 x (Or.inr h)
+
+
+/-- the times the sources are compared with: generates that exist, plus the marker if it exists -/
+def tsGts (t : Task) (s : State) : List Nat :=
+  (globs (nowPats t.generates s.files)).map (mtimeOf s.files) ++
+    (match aget s.marks (tsKey t) with | some m => [m] | none => [])
+
+/-- the verdict of the (patched) timestamp check: something to compare with, no source newer than
+it, and every non-negated `generates` entry matches an existing file -/
+def tsUp (t : Task) (s : State) : Bool :=
+  !(tsGts t s).isEmpty && !(srcsNow t s.files).any (fun p => decide (maxOf (tsGts t s) < mtimeOf s.files p)) &&
+    gensOk t s.files
+
+/-- **`tsCheck` in one line**: the verdict is `tsUp`; the state is untouched by a dry check and by
+a check that says "up to date" while the marker exists; in every other case the marker is left
+at the time of the check (created, or touched because the task is going to run). -/
+theorem tsCheck_eq (t : Task) (dry : Bool) (now : Nat) (s : State) :
+    tsCheck t dry now s =
+      (if dry || (tsUp t s && (aget s.marks (tsKey t)).isSome) then s
+       else { s with marks := aset s.marks (tsKey t) now }, tsUp t s) := by
+  unfold tsCheck tsUp tsGts
+  simp only
+  cases hm : aget s.marks (tsKey t) with
+  | none =>
+    simp only [List.append_nil, Option.isSome_none, Bool.and_false, Bool.or_false, Bool.false_eq_true, if_false]
+    generalize List.map (mtimeOf s.files) (globs (nowPats t.generates s.files)) = l
+    cases l with
+    | nil => cases dry <;> simp
+    | cons a l =>
+      simp only [List.isEmpty_cons, Bool.false_eq_true, if_false, Bool.not_false, Bool.true_and]
+      generalize ((!(srcsNow t s.files).any fun p => decide (maxOf (a :: l) < mtimeOf s.files p)) && gensOk t s.files) = up
+      cases dry <;> cases up <;> simp [aset_aset]
+  | some m =>
+    simp only [Option.isSome_some, if_true, Bool.and_true]
+    have hne : (List.map (mtimeOf s.files) (globs (nowPats t.generates s.files)) ++ [m]).isEmpty = false := by
+      cases List.map (mtimeOf s.files) (globs (nowPats t.generates s.files)) <;> rfl
+    simp only [hne, Bool.false_eq_true, if_false, Bool.not_false, Bool.true_and]
+    generalize ((!(srcsNow t s.files).any fun p =>
+      decide (maxOf (List.map (mtimeOf s.files) (globs (nowPats t.generates s.files)) ++ [m]) < mtimeOf s.files p)) &&
+      gensOk t s.files) = up
+    cases dry <;> cases up <;> simp
+
+theorem tsCheck_result (t : Task) (dry : Bool) (now : Nat) (s : State) : (tsCheck t dry now s).2 = tsUp t s := by
+  rw [tsCheck_eq]
+
+/-- a check leaves every OTHER marker alone -/
+theorem tsCheck_marks_other (t : Task) (dry : Bool) (now : Nat) (s : State) (x : Bytes) (hx : x ≠ tsKey t) :
+    aget (tsCheck t dry now s).1.marks x = aget s.marks x := by
+  rw [tsCheck_eq]
+  simp only
+  split
+  · rfl
+  · exact aget_aset_ne _ _ (fun e => hx e.symm)
+
+/-- **an up-to-date verdict does not move an existing marker**: the whole state is unchanged -/
+theorem tsCheck_upToDate_pure (t : Task) (dry : Bool) (now : Nat) (s : State)
+    (hmk : (aget s.marks (tsKey t)).isSome = true) (hup : (tsCheck t dry now s).2 = true) :
+    (tsCheck t dry now s).1 = s := by
+  rw [tsCheck_result] at hup
+  rw [tsCheck_eq]
+  simp [hup, hmk]
+
+/-- an up-to-date verdict without a marker (the generates alone vouched): the marker is created
+with the time of the check -/
+theorem tsCheck_upToDate_created (t : Task) (now : Nat) (s : State)
+    (hmk : aget s.marks (tsKey t) = none) :
+    (tsCheck t false now s).1 = { s with marks := aset s.marks (tsKey t) now } := by
+  rw [tsCheck_eq]
+  simp [hmk]
+
+/-- **a not-up-to-date verdict of a non-dry check leaves the marker at the time of the check** -/
+theorem tsCheck_stored (t : Task) (now : Nat) (s : State) (hno : (tsCheck t false now s).2 = false) :
+    aget (tsCheck t false now s).1.marks (tsKey t) = some now := by
+  rw [tsCheck_result] at hno
+  rw [tsCheck_eq]
+  simp [hno]
+
+/-- after any non-dry check the marker exists: at the time of the check, or (verdict "up to date",
+marker present before) where it was -/
+theorem tsCheck_marker_after (t : Task) (now : Nat) (s : State) :
+    aget (tsCheck t false now s).1.marks (tsKey t) = some now ∨
+    ((tsCheck t false now s).2 = true ∧ (tsCheck t false now s).1 = s ∧ (aget s.marks (tsKey t)).isSome = true) := by
+  cases hv : (tsCheck t false now s).2 with
+  | false => exact Or.inl (tsCheck_stored t now s hv)
+  | true =>
+    cases hm : aget s.marks (tsKey t) with
+    | none => left; rw [tsCheck_upToDate_created t now s hm]; simp
+    | some m =>
+      have hs : (aget s.marks (tsKey t)).isSome = true := by rw [hm]; rfl
+      right; exact ⟨rfl, tsCheck_upToDate_pure t false now s hs hv, by rw [← hm]; exact hs⟩
+
+@[simp] theorem tsCheck_dry (t : Task) (now : Nat) (s : State) : (tsCheck t true now s).1 = s := by
+  rw [tsCheck_eq]; simp
+
+theorem tsCheck_fields (t : Task) (dry : Bool) (now : Nat) (s : State) :
+    (tsCheck t dry now s).1.files = s.files ∧ (tsCheck t dry now s).1.sums = s.sums ∧
+    (tsCheck t dry now s).1.log = s.log ∧ (tsCheck t dry now s).1.dirs = s.dirs := by
+  rw [tsCheck_eq]
+  simp only
+  split <;> simp
+
 /-! ### dry checks write nothing -/
 
 @[simp] theorem sumCheck_dry (t : Task) (s : State) : (sumCheck H pr t true s).1 = s := by
   simp [sumCheck]
-
-@[simp] theorem tsCheck_dry (t : Task) (now : Nat) (s : State) : (tsCheck t true now s).1 = s := by
-  unfold tsCheck
-  simp only [if_true]
-  split <;> (split <;> rfl)
 
 @[simp] theorem srcCheck_dry (t : Task) (now : Nat) (s : State) : (srcCheck H pr t true now s).1 = s := by
   unfold srcCheck
@@ -108,62 +221,6 @@ theorem sumCheck_stored (t : Task) (s : State) :
 
 theorem sumCheck_result (t : Task) (dry : Bool) (s : State) :
     (sumCheck H pr t dry s).2 = (gensOk t s.files && decide (aget s.sums (sumKey t) = some (fpNow H pr t s.files))) := rfl
-
-theorem tsCheck_fields (t : Task) (dry : Bool) (now : Nat) (s : State) :
-    (tsCheck t dry now s).1.files = s.files ∧ (tsCheck t dry now s).1.sums = s.sums ∧
-    (tsCheck t dry now s).1.log = s.log ∧ (tsCheck t dry now s).1.dirs = s.dirs := by
-  unfold tsCheck
-  simp only
-  split <;> (split <;> (try split) <;> (try split) <;> simp)
-
-/-- after a non-dry timestamp check the marker exists and carries the time of the check -/
-theorem tsCheck_stored (t : Task) (now : Nat) (s : State) :
-    aget (tsCheck t false now s).1.marks (tsKey t) = some now := by
-  unfold tsCheck
-  simp only [Bool.false_eq_true, if_false]
-  cases hm : aget s.marks (tsKey t) with
-  | some m => simp
-  | none =>
-    simp only [Option.isSome_none, Bool.false_eq_true, if_false]
-    split <;> simp
-
-theorem le_foldl_max (l : List Nat) (a x : Nat) (h : x ≤ a ∨ x ∈ l) : x ≤ l.foldl Nat.max a := by
-  induction l generalizing a with
-  | nil => simpa using h
-  | cons b l ih =>
-    simp only [List.foldl_cons]
-    apply ih
-    rcases h with h | h
-    · exact Or.inl (Nat.le_trans h (Nat.le_max_left a b))
-    · simp only [List.mem_cons] at h
-      rcases h with h | h
-      · subst h; exact Or.inl (Nat.le_max_right a x)
-      · exact Or.inr h
-
-theorem le_maxOf (l : List Nat) (x : Nat) (h : x ∈ l) : x ≤ maxOf l :=
-  le_foldl_max l 0 x (Or.inr h)
-
-
-/-- the times the sources are compared with: generates that exist, plus the marker if it exists -/
-def tsGts (t : Task) (s : State) : List Nat :=
-  (globs (nowPats t.generates s.files)).map (mtimeOf s.files) ++
-    (match aget s.marks (tsKey t) with | some m => [m] | none => [])
-
-theorem tsCheck_result (t : Task) (dry : Bool) (now : Nat) (s : State) :
-    (tsCheck t dry now s).2 =
-      (!(tsGts t s).isEmpty && !(srcsNow t s.files).any (fun p => decide (maxOf (tsGts t s) < mtimeOf s.files p))) := by
-  unfold tsCheck tsGts
-  simp only
-  cases aget s.marks (tsKey t) with
-  | none =>
-    simp only [List.append_nil]
-    generalize List.map (mtimeOf s.files) (globs (nowPats t.generates s.files)) = l
-    cases l <;> simp
-  | some m =>
-    simp only
-    split
-    · rename_i h; simp at h
-    · rename_i h; simp
 
 theorem foldl_max_lt (l : List Nat) (a x : Nat) (ha : a < x) (hl : ∀ m ∈ l, m < x) : l.foldl Nat.max a < x := by
   induction l generalizing a with
